@@ -394,6 +394,27 @@ def mix_files():
             os.replace(tmp, obj)
     if os.path.exists(obj):
         out.append(obj)
+    # a file whose DIE tree cannot be walked to the end (an undefined abbreviation code in a later unit): the
+    # executions that run into the error must not leave anything behind for the ones that follow
+    broken = os.path.join(d, "c12-broken.o")
+    if not os.path.exists(broken):
+        from .. import dwforest as DF
+        from ..dwgen import build_file
+        g = DF.ForestGen(random.Random(0xB20C), DF.FCfg(max_units=4, max_dies=30, partial=0.0, bulk=0.0, line_tables=False))
+        f = g.forest()
+        while len(f.units) < 3 or len(f.units[-1].dies()) < 4:
+            f = g.forest()
+        data = bytearray(build_file(f))
+        info, _ = f.layout()
+        at = bytes(data).find(bytes(info))
+        victim = f.units[-1].dies()[len(f.units[-1].dies()) // 2]
+        if at >= 0:
+            data[at + victim.offset] = 0x7f
+            tmp = broken + ".%d" % os.getpid()
+            open(tmp, "wb").write(bytes(data))
+            os.replace(tmp, broken)
+    if os.path.exists(broken):
+        out.append(broken)
     return out
 
 
